@@ -120,10 +120,15 @@ def base_emf(key="default", **kw):
 
 
 def bare_emf():
-    emf, *_ = mods()
-    return emf.EvolvedMF.__new__(emf.EvolvedMF)
+    """an EvolvedMF carrying every attribute a real construction sets (shallow copy of the cached carrier), for calling methods on arrays"""
+    import copy
+    return copy.copy(base_emf())
 
 
 def bare_emf_bh():
+    import copy
     emf, *_ = mods()
-    return emf.EvolvedMFWithBH.__new__(emf.EvolvedMFWithBH)
+    o = copy.copy(base_emf())
+    o.__class__ = emf.EvolvedMFWithBH
+    o.strict_BH_target = False
+    return o
